@@ -150,8 +150,16 @@ def run_step(prop, step, tier, seed, repo, tmp, only=None, scale=None, idx=0):
         env["ASAN_OPTIONS"] = "halt_on_error=1:abort_on_error=0:detect_leaks=0"
     env.update(step.get("env", {}))
     t0 = time.time()
+    limit_kb = step.get("address_space_kb")
+    def set_limit():
+        # the sandbox has no memory limit of its own: a step may run under an address-space limit so
+        # that runaway allocation (e.g. driven by a hostile size field) ends the worker with
+        # "fatal error: out of memory" (attributed through the journal) instead of going unnoticed
+        import resource
+        resource.setrlimit(resource.RLIMIT_AS, (limit_kb * 1024, limit_kb * 1024))
     with open(logp, "w") as lf:
-        rc = subprocess.run(cmd, stdout=lf, stderr=subprocess.STDOUT, env=env, cwd=VERIF).returncode
+        rc = subprocess.run(cmd, stdout=lf, stderr=subprocess.STDOUT, env=env, cwd=VERIF,
+                            preexec_fn=set_limit if limit_kb and variant == "plain" else None).returncode
     wall = time.time() - t0
     log = open(logp, errors="replace").read()
     res = {"step": step, "rc": rc, "wall_s": wall, "log_tail": log[-6000:], "tmp_log": logp}
